@@ -79,7 +79,13 @@ def witness_cases():
     txnrace = {"datasets": ["a"], "ops": [{"op": "batch", "ds": "a", "ents": [sc.with_id("e1", A)]},
                                           {"op": "race", "ds": "a", "ents": [sc.with_id("e1", B)], "second": [sc.with_id("e1", C)],
                                            "pause_at": "lock.wait", "first_txn": True, "reader": "rx", "limit": 0}] + fin_reads(1, ["e1"])}
-    return [race, txnrace, merged, big, nullprop,
+    many = [sc.with_id("e%d" % i, {"props": {"p1": i % 3}, "refs": {}}) for i in list(range(1, 24)) + [5, 5, 12]]
+    http = {"datasets": ["a"], "ops": [
+        # the same listing through the real HTTP handlers (POST cut into batches of 10, GET entities paged with tokens)
+        {"op": "hbatch", "ds": "a", "ents": many}, {"op": "hentities", "ds": "a", "limits": [4]}, {"op": "hentities", "ds": "a", "limits": [0]},
+        {"op": "hbatch", "ds": "a", "ents": [sc.with_id("e7", {"deleted": True, "props": {"p1": 1}, "refs": {}})] + many[10:21]},
+        {"op": "hentities", "ds": "a", "limits": [10]}, {"op": "entities", "ds": "a", "limits": [3]}] + fin_reads(1, ["e7", "e12"])}
+    return [race, txnrace, merged, big, nullprop, http,
         # F01a: un-delete with a 15-byte property is dropped: listing and lookup keep the deleted version
         {"datasets": ["a"], "ops": [{"op": "batch", "ds": "a", "ents": [sc.with_id("e1", old)]},
                                     {"op": "batch", "ds": "a", "ents": [sc.with_id("e1", new)]}] + fin_reads(1, ["e1"])},
@@ -101,6 +107,11 @@ def gen_case(rng, nw):
     ops = []
     memo = {}
     for w in writes:
+        if w["op"] == "batch" and rng.chance(1, 5):
+            w = {"op": "hbatch", "ds": w["ds"], "ents": sc.no_null(w["ents"] + sc.gen_batch(rng, pool, memo, w["ds"], True) * rng.choice([1, 4]))}
+            ops.append(w)
+            ops.append({"op": "hentities", "ds": w["ds"], "limits": [rng.choice([0, 1, 2, 3])]})
+            continue
         ops.append(w)
         if rng.chance(1, 6):
             d = sc.DS_NAMES[rng.below(nds)]
